@@ -266,7 +266,8 @@ class TransformRunner(aggregates.Aggregatable, Iterable[_ValueT]):
     data_source = transform.data_source_
     # Collect input_iterator.
     data_source = lazy_fns.maybe_make(data_source)
-    if input_state is not None:
+    # Only the stage that owns the data source is sharded.
+    if input_state is not None and data_source is not None:
       if types.is_recoverable(data_source):
         data_source = data_source.from_state(input_state)
       else:
